@@ -166,6 +166,74 @@ def run_wire(case: dict):
     return ok(**info)
 
 
+# ------------------------------------------------------------------ live client/server pair (thorough tier)
+
+_live19 = {}
+
+
+def _live_server():
+    if _live19:
+        return _live19
+    from vlib import livenet, stacks
+    from vlib.nlog import setup_logging
+
+    setup_logging()
+    from nauyaca.protocol.response import GeminiResponse
+
+    seen = {}
+
+    def handler(req):
+        seen[req.raw_url] = (req.hostname, req.port, req.path, req.query)
+        return GeminiResponse(status=20, meta="text/gemini", body="LIVE")
+
+    factory, sslctx = stacks.manual_stack("stdlib", handler)
+    _live19["port"] = livenet.bg().serve("c19-live", factory, sslctx)
+    _live19["seen"] = seen
+    return _live19
+
+
+@st.composite
+def live_case(draw):
+    u = draw(urlgen.gemini_url())
+    rest = u["url"].split("://", 1)[1]
+    tail = rest[rest.index("/"):] if "/" in rest else ("?" + u["query"] if u["query"] else "")
+    if "/" not in rest and u["query"]:
+        tail = "?" + u["query"]
+    host = draw(st.sampled_from(["127.0.0.1", "localhost", "LOCALHOST", "127.0.0.1"]))
+    return {"host": host, "tail": tail, "path": u["path"], "query": u["query"], "labels": u["labels"] + ["live"], "url": ""}
+
+
+def run_live(case: dict):
+    import asyncio
+
+    from nauyaca.client.session import GeminiClient
+
+    sv = _live_server()
+    port = sv["port"]
+    url = f"gemini://{case['host']}:{port}{case['tail']}"
+
+    async def go():
+        client = GeminiClient(timeout=20, trust_on_first_use=False)
+        return await client.get(url, follow_redirects=False)
+
+    try:
+        r = asyncio.run(go())
+    except ValueError as e:
+        return grey("library-rejects-input", err=str(e)[:60])
+    except Exception as e:
+        return viol("live-fetch-failed", f"{url[:100]!r}: {type(e).__name__}: {e}")
+    if r.status != 20 or r.body != "LIVE":
+        return viol("wire-request-refused-by-server", f"{url[:100]!r} -> {r.status} {r.meta[:60]!r}")
+    want = (case["host"].lower(), port, case["path"], case["query"])
+    got = [v for k, v in sv["seen"].items() if v[:2] == (want[0], port) and v[2:] == want[2:]]
+    if not got:
+        last = list(sv["seen"].values())[-1] if sv["seen"] else None
+        return viol("server-sees-other-components", f"caller asked {want} with {url[:100]!r}; handler saw {last}")
+    if len(sv["seen"]) > 5000:
+        sv["seen"].clear()
+    return ok(url=url[:80])
+
+
 def _nontrivial(case, v):
     if v.kind == "ok" and v.info.get("accepted") is False:
         return False
@@ -182,6 +250,8 @@ def _labels(case, v):
 
 def _bucket(case, v):
     b = v.clause
+    if "url" not in case or not case["url"]:
+        return b
     if v.info.get("boundary"):
         return b + ":length-boundary"
     if "[" in case["url"]:
@@ -285,6 +355,16 @@ LANES = [
         bucket=_bucket,
         rule="GeminiClient.get over in-memory TLS; the request line on the wire is parsed by the real server protocol; "
              "the spy handler must see the host/port/path/query the caller asked for",
+    ),
+    Lane(
+        name="live-pair",
+        run_case=run_live,
+        strategy=live_case,
+        budget={"quick": 0, "thorough": 4000},
+        shards={"quick": 1, "thorough": 8},
+        nontrivial=_nontrivial,
+        labels=_labels,
+        rule="real GeminiClient against the real stdlib-TLS server stack over loopback sockets (thorough tier only)",
     ),
     Lane(
         name="grammar",
